@@ -1,0 +1,122 @@
+//! Verification hook, compiled only with `--cfg sonic_rs_verif`.
+//!
+//! A drop-in `AtomicPtr<T>` with exactly the operations the two lazy caches use. Every
+//! operation is forwarded to functions that the *verification harness* defines (a controlled
+//! scheduler such as loom, optionally with injected weak-CAS failures), so sonic-rs itself gains
+//! no dependency. Without the cfg this file is not part of the crate.
+
+use std::{cell::UnsafeCell, marker::PhantomData, sync::atomic::Ordering};
+
+extern "Rust" {
+    fn sonic_rs_verif_atomic_new(init: *mut ()) -> usize;
+    fn sonic_rs_verif_atomic_drop(handle: usize);
+    fn sonic_rs_verif_atomic_load(handle: usize, order: Ordering) -> *mut ();
+    fn sonic_rs_verif_atomic_store_exclusive(handle: usize, value: *mut ());
+    fn sonic_rs_verif_atomic_load_exclusive(handle: usize) -> *mut ();
+    fn sonic_rs_verif_atomic_cas(
+        handle: usize,
+        current: *mut (),
+        new: *mut (),
+        success: Ordering,
+        failure: Ordering,
+        weak: bool,
+    ) -> Result<*mut (), *mut ()>;
+}
+
+pub(crate) struct AtomicPtr<T> {
+    handle: usize,
+    // `get_mut` hands out `&mut *mut T`: a local copy, written back before the next operation
+    local: UnsafeCell<*mut T>,
+    dirty: UnsafeCell<bool>,
+    _marker: PhantomData<*mut T>,
+}
+
+unsafe impl<T> Send for AtomicPtr<T> {}
+unsafe impl<T> Sync for AtomicPtr<T> {}
+
+impl<T> AtomicPtr<T> {
+    pub(crate) fn new(p: *mut T) -> Self {
+        Self {
+            handle: unsafe { sonic_rs_verif_atomic_new(p as *mut ()) },
+            local: UnsafeCell::new(p),
+            dirty: UnsafeCell::new(false),
+            _marker: PhantomData,
+        }
+    }
+
+    // only reachable with exclusive access having ended (`&self` after `&mut self`)
+    fn write_back(&self) {
+        unsafe {
+            if *self.dirty.get() {
+                *self.dirty.get() = false;
+                sonic_rs_verif_atomic_store_exclusive(self.handle, *self.local.get() as *mut ());
+            }
+        }
+    }
+
+    pub(crate) fn load(&self, order: Ordering) -> *mut T {
+        self.write_back();
+        unsafe { sonic_rs_verif_atomic_load(self.handle, order) as *mut T }
+    }
+
+    pub(crate) fn compare_exchange(
+        &self,
+        current: *mut T,
+        new: *mut T,
+        success: Ordering,
+        failure: Ordering,
+    ) -> Result<*mut T, *mut T> {
+        self.write_back();
+        unsafe {
+            sonic_rs_verif_atomic_cas(
+                self.handle,
+                current as *mut (),
+                new as *mut (),
+                success,
+                failure,
+                false,
+            )
+            .map(|p| p as *mut T)
+            .map_err(|p| p as *mut T)
+        }
+    }
+
+    #[allow(dead_code)]
+    pub(crate) fn compare_exchange_weak(
+        &self,
+        current: *mut T,
+        new: *mut T,
+        success: Ordering,
+        failure: Ordering,
+    ) -> Result<*mut T, *mut T> {
+        self.write_back();
+        unsafe {
+            sonic_rs_verif_atomic_cas(
+                self.handle,
+                current as *mut (),
+                new as *mut (),
+                success,
+                failure,
+                true,
+            )
+            .map(|p| p as *mut T)
+            .map_err(|p| p as *mut T)
+        }
+    }
+
+    pub(crate) fn get_mut(&mut self) -> &mut *mut T {
+        unsafe {
+            if !*self.dirty.get() {
+                *self.local.get() = sonic_rs_verif_atomic_load_exclusive(self.handle) as *mut T;
+                *self.dirty.get() = true;
+            }
+            &mut *self.local.get()
+        }
+    }
+}
+
+impl<T> Drop for AtomicPtr<T> {
+    fn drop(&mut self) {
+        unsafe { sonic_rs_verif_atomic_drop(self.handle) }
+    }
+}
